@@ -35,9 +35,11 @@ type BannerSpec struct {
 
 // Scenario is the replayable description of one end-to-end run.
 type Scenario struct {
-	Family      string              `json:"family"` // asa ios linux panos nsx
-	Front       string              `json:"front"`  // drc | do-approve
-	Verb        string              `json:"verb"`   // approve | compare
+	Family      string              `json:"family"`               // asa ios linux panos nsx
+	Front       string              `json:"front"`                // drc | do-approve
+	NoLogDir    bool                `json:"no_log_dir,omitempty"` // drc without -L
+	Quiet       bool                `json:"quiet,omitempty"`      // drc -q
+	Verb        string              `json:"verb"`                 // approve | compare
 	Device      string              `json:"device"`
 	Routes      []string            `json:"routes,omitempty"`
 	IPTables    string              `json:"iptables,omitempty"`
@@ -107,6 +109,7 @@ type Outcome struct {
 	Saved           string // startup/active config text after the run
 	ReloadLeft      bool
 	Files           map[string]string // every file under basedir, -L dir (relative names)
+	ConfigSent      string            // ASA/IOS: the configuration text the simulator printed last
 	Status          string
 	History         string
 	Dir             string
@@ -314,7 +317,13 @@ func Execute(sc *Scenario) *Outcome {
 	}
 	switch sc.Front {
 	case "drc":
-		args := []string{"-L", e.LogDir}
+		var args []string
+		if !sc.NoLogDir {
+			args = append(args, "-L", e.LogDir)
+		}
+		if sc.Quiet {
+			args = append(args, "-q")
+		}
 		if sc.Verb == "compare" {
 			args = append(args, "-C")
 		}
@@ -378,6 +387,9 @@ func Execute(sc *Scenario) *Outcome {
 	for p, c := range dlg.AllFiles(e.LogDir) {
 		rel, _ := filepath.Rel(e.Dir, p)
 		o.Files[rel] = c
+	}
+	if data, err := os.ReadFile(filepath.Join(e.Dir, "config-sent")); err == nil {
+		o.ConfigSent = string(data)
 	}
 	o.Status = o.Files["base/status/router"]
 	o.History = o.Files["base/history/router"]
